@@ -15,7 +15,7 @@ pub fn prop() -> Prop {
 fn spec() -> Spec {
     Spec {
         kinds: vec![Kind { name: "sampler", quick: 20_000, thorough: 500_000, serial: false }, Kind { name: "through_planner", quick: 300, thorough: 10_000, serial: false }],
-        rule: "each case = one constraint set with per-joint (from,to) in [-2pi,2pi] of classes from<to, from>to straddling zero, from>to both positive, from>to both negative, from==to, limits at +-2pi; 500 draws of random_angles() per set (cases run on 16 threads, the library RNG is thread-local); every draw is judged by the reference arc oracle and by the library's own compliant(); through_planner: the sampler as the RRT planner drives it (synthetic cell, collision checks on, limits with wrap-around ranges that contain start and goal, small try budget): no panic (and, with non-wrapping limits, every node of a returned path is accepted by the limits). non-trivial = set contains at least one wrap-around joint; distinct = hash(from,to) Workload additions: limits installed through update_range histories; from == to with signed zeros; arcs a few ulps wide, plain and wrapping.",
+        rule: "each case = one constraint set with per-joint (from,to) in [-2pi,2pi] of classes from<to, from>to straddling zero, from>to both positive, from>to both negative, from==to, limits at +-2pi; 500 draws of random_angles() per set (cases run on 16 threads, the library RNG is thread-local); every draw is judged by the reference arc oracle and by the library's own compliant(); through_planner: the sampler as the RRT planner drives it (synthetic cell, collision checks on, limits with wrap-around ranges that contain start and goal, small try budget): no panic (and, with non-wrapping limits, every node of a returned path is accepted by the limits). non-trivial = set contains at least one wrap-around joint; distinct = hash(from,to) Workload additions: limits installed through update_range histories; from == to with signed zeros; arcs a few ulps wide, plain and wrapping. Rounds 7-9: sets read back from a solver through Kinematics::constraints(); ranges within a milliradian of a full turn; every draw also passed through filter().",
         assumptions: vec![
             "draws within 1e-9 rad of an arc end are inconclusive",
             "from > to with from == to (mod 2pi) describes no arc of positive width and is not generated",
